@@ -68,6 +68,14 @@ def compare_modulo_ids(ws, wc, idmap, path=""):
     return None if ws == wc else (path, ws, wc)
 
 
+def _strip_seen(node):
+    if isinstance(node, dict):
+        return {k: _strip_seen(v) for k, v in node.items() if k != "seen"}
+    if isinstance(node, list):
+        return [_strip_seen(v) for v in node]
+    return node
+
+
 def do_copy(it, dest_it, src, dest_parent, spec):
     """perform the copy through the public API; returns the handle the API returns"""
     sh = it.handle(src)
@@ -214,6 +222,28 @@ def run_case(case, ctx):
                           {"name": exp_name, "raised": type(exc).__name__, "names": [x.name for x in cont][:8]})
             return
         wc = walk.walk_obj(ch, timestamps=False, seen=True)
+        # the source is walked again after the copy: what it shows THROUGH its links may legitimately have
+        # changed (the destination itself can be a link target of the source and has a new child now); its own
+        # content must not have
+        sh_ = it.handle(src)
+        wsrc = walk.Walker(False, True, True, sh_.id)
+        ws_after = wsrc.obj(sh_)
+        dest_is_target = dparent is not dest_it.root and dest_it is it and dparent.id in set(walk.refs(ws))
+        if dest_is_target:
+            # the destination is itself a link target of the source: the copy changes what the source sees
+            # through that link, while the copy carries a snapshot of the target taken at some point of the copy
+            ws_after, wc = _strip_seen(ws_after), _strip_seen(wc)
+            flags.add("destination-is-link-target-of-source:digests-not-compared")
+        if wsrc.cyclic:
+            # a link chain leads back to the copied entity itself: what is seen through such links names the
+            # entity (renamed in the copy) - not comparable, only the plain content is
+            ws_after, wc = _strip_seen(ws_after), _strip_seen(wc)
+            flags.add("link-cycle-through-source:digests-not-compared")
+        d0 = walk.diff(_strip_seen(ws), _strip_seen(ws_after))
+        if d0:
+            ctx.violation("C20/source-changed-by-copy/%s" % key_cls, case,
+                          {"path": d0[0], "before": walk.brief(d0[1], 150), "after": walk.brief(d0[2], 150)})
+        ws = ws_after
         ws_exp = dict(ws)
         if new_name:
             ws_exp["name"] = new_name
